@@ -1,0 +1,11 @@
+//go:build !verif
+
+package kv
+
+import "time"
+
+// verifMergeRoots is the verification hook of mergeRoots; without the verif
+// build tag it is the identity.
+func verifMergeRoots(_ Config, roots []string, when time.Time) ([]string, time.Time) {
+	return roots, when
+}
